@@ -301,6 +301,9 @@ class Engine:
         if isinstance(v, SStr):
             yield from self.branch(st, v.z != str_const(""), note)
             return
+        if isinstance(v, self.B.SG.SegStr):
+            yield st, len(v.segs) > 0
+            return
         if isinstance(v, self.B.X.SExt):
             yield from self.branch(st, z3.Not(z3.And(v.finite(), v.v == 0)), note)     # only a finite zero is falsy (inf and nan are truthy)
             return
@@ -1314,8 +1317,37 @@ class Engine:
         yield st, ExcVal(NameError, (name,), self.where(st, node))
 
     def ex_JoinedStr(self, node, st):
-        # f-strings are only used for messages in the verified code: opaque
-        yield st, Str.fresh("fstr")
+        # f-strings are only used for messages in most of the verified code: opaque, unless the unit asks for exact text
+        if not getattr(self, "exact_strings", False):
+            yield st, Str.fresh("fstr")
+            return
+
+        def go(parts, s, acc):
+            if not parts:
+                try:
+                    yield s, self.B.SG.concat(acc) if acc else ""
+                except Unsupported:
+                    yield s, Str.fresh("fstr")
+                return
+            p = parts[0]
+            if isinstance(p, ast.Constant):
+                yield from go(parts[1:], s, acc + [p.value])
+                return
+            if p.format_spec is not None:
+                yield s, Str.fresh("fstr")
+                return
+            for s1, v in self.ev(p.value, s):
+                if isinstance(v, ExcVal):
+                    yield s1, v
+                    continue
+                for s2, txt in self.call(s1, str, [v], {}, node):
+                    if isinstance(txt, ExcVal):
+                        yield s2, txt
+                    elif isinstance(txt, (str, self.B.SG.SegStr)):
+                        yield from go(parts[1:], s2, acc + [txt])
+                    else:
+                        yield s2, Str.fresh("fstr")
+        yield from go(list(node.values), st, [])
 
     def ex_Tuple(self, node, st):
         for s, vs in self.ev_list(node.elts, st):
@@ -1674,6 +1706,9 @@ class Engine:
             return
         if isinstance(obj, SEnum) and name == "value":
             yield st, SUnion([(obj.z == obj.t.consts[m], m.value) for m in obj.t.members])
+            return
+        if isinstance(obj, self.B.SG.SegStr):
+            yield st, ContainerMethod(obj, name)
             return
         if isinstance(obj, ExcVal):
             raise Unsupported("attribute of exception value")
